@@ -51,6 +51,9 @@ def assigned_names(stmts):
         for nd in ast.walk(s):
             if isinstance(nd, ast.Name) and isinstance(nd.ctx, ast.Store):
                 out.add(nd.id)
+            if isinstance(nd, ast.Call) and isinstance(nd.func, ast.Attribute) and nd.func.attr == 'append' \
+                    and isinstance(nd.func.value, ast.Name):
+                out.add(nd.func.value.id)
     return out
 
 
@@ -255,6 +258,15 @@ class Executor:
         if isinstance(tgt, ast.Name):
             st.locals[tgt.id] = v
             return [(st, None)]
+        if isinstance(tgt, (ast.Tuple, ast.List)) and isinstance(v, SList) and v.concrete is None:
+            n = len(tgt.elts)
+            res = []
+            for s2, ok in self.branch(st, v.length == n, 'unpack%d' % n):
+                if not ok:
+                    res.append((s2, ('raise', SExc('ValueError', origin='unpack: expected %d values' % n))))
+                else:
+                    res.extend(self.assign(tgt, STuple([v.elem(z3.IntVal(i)) for i in range(n)]), s2, fx))
+            return res
         if isinstance(tgt, (ast.Tuple, ast.List)):
             items = self.unpack(v, len(tgt.elts), st)
             if isinstance(items, Raised):
@@ -546,8 +558,9 @@ class Executor:
         cx = self.cx
         # --- initialisation (ghost functions get their initial definition first)
         lp.k, lp.st = z3.IntVal(0), st
-        for f in inv.ghost_init(cx, lp):
-            st.assume(f)
+        # ghost state variables: initial values (ghost code, affects no program variable)
+        for gname, gval in inv.ghost_init(cx, lp).items():
+            st.ghost[gname] = gval
         for name, f in inv.invariant(cx, lp):
             self.oblige(st, 'inv-init#%d.%s' % (ordinal, name), f, kind='inv')
         mods = assigned_names(stmt.body) | assigned_names([ast.Expr(value=stmt.target)]) | \
@@ -566,10 +579,12 @@ class Executor:
                 s.writes.append(('loop', ordinal, s0.heap, None))
             for n in mods:
                 if n in s.locals:
-                    s.locals[n] = self.havoc_value(s.locals[n], n)
+                    s.locals[n] = self.havoc_value(s.locals[n], n, getattr(inv, 'havoc_types', {}).get(n))
             s.warns = []
             s.out = []
             s.err = []
+            for gname, gsort in inv.ghost_vars(cx).items():
+                s.ghost[gname] = self.W.fresh('g_' + gname, gsort)
             return s
 
         # --- arbitrary iteration
@@ -590,14 +605,12 @@ class Executor:
                 if c3 is None or c3[0] == 'continue':
                     lpg = LoopCtx(ordinal, st, seq)
                     lpg.k, lpg.st, lpg.cur, lpg.head = k, s3, cur, sh
-                    for f in inv.ghost_update(cx, lpg):
-                        if isinstance(f, tuple) and f[0] == 'skolem':
-                            # exists-elimination: prove the witness exists, then name it by the ghost term
-                            _, gname, exists_f, inst_f = f
-                            self.oblige(s3, 'ghost-witness#%d.%s' % (ordinal, gname), exists_f, kind='inv')
-                            s3.assume(inst_f)
-                        else:
-                            s3.assume(f)
+                    # ghost code at the end of the iteration: assignments to ghost state variables
+                    for gname, gval in inv.ghost_update(cx, lpg).items():
+                        s3.ghost[gname] = gval
+                    self.obligations.append(Obligation(self.target, 'iteration_end_reachable#%d[%s]' % (ordinal, self.pathname(s3)),
+                                                       s3.facts, z3.BoolVal(False), s3.versions, kind='cover',
+                                                       path=self.pathname(s3), expect='not-unsat'))
                     lp2 = LoopCtx(ordinal, st, seq)
                     lp2.k, lp2.st, lp2.cur = k + 1, s3, cur
                     for name, f in inv.invariant(cx, lp2):
@@ -638,7 +651,24 @@ class Executor:
             out.append((sa, None))
         return out
 
-    def havoc_value(self, v, name):
+    def witness(self, st, name, sort, body):
+        """exists-elimination for ghost code: prove that a witness exists (obligation), then name it"""
+        v = z3.Const('w!ex', sort)
+        self.oblige(st, 'ghost-witness.%s' % name, z3.Exists([v], body(v)), kind='inv')
+        c = self.W.fresh('wit_' + name, sort)
+        st.assume(body(c))
+        return c
+
+    def havoc_value(self, v, name, kind=None):
+        if kind == 'nodelist':
+            f = self.W.fresh_fun(name + '_elem', L.I, Node)
+            n = self.W.fresh(name + '_len', L.I)
+            r = SList(n, lambda k, f=f: SNode(f(k)), desc='havoc ' + name)
+            r.fun = f
+            r.elemkind = 'node'
+            return r
+        if kind == 'optreal':
+            return SReal(self.W.fresh(name, L.R), self.W.fresh(name + '_none', L.B))
         if isinstance(v, SInt):
             return SInt(self.W.fresh(name, L.I))
         if isinstance(v, SReal):
